@@ -790,10 +790,8 @@ impl<'p, 's, M: Matcher, W: io::Write> Sink for JSONSink<'p, 's, M, W> {
         _searcher: &Searcher,
         finish: &SinkFinish,
     ) -> Result<(), io::Error> {
-        if !self.begin_printed {
-            return Ok(());
-        }
-
+        // A search without a match prints nothing, but it still counts as a
+        // search in the statistics (as it does for the other printers).
         self.binary_byte_offset = finish.binary_byte_offset();
         self.stats.add_elapsed(self.start_time.elapsed());
         self.stats.add_searches(1);
@@ -801,6 +799,9 @@ impl<'p, 's, M: Matcher, W: io::Write> Sink for JSONSink<'p, 's, M, W> {
             self.stats.add_searches_with_match(1);
         }
         self.stats.add_bytes_searched(finish.byte_count());
+        if !self.begin_printed {
+            return Ok(());
+        }
         self.stats.add_bytes_printed(self.json.wtr.count());
 
         let msg = jsont::Message::End(jsont::End {
